@@ -3171,6 +3171,11 @@ fn infer_for_declaration(
 			};
 			Some(Err(Poison::Error(error)))
 		}
+		// Knowing that it is a structure is not enough to declare a variable.
+		Some(Ok(ValueType::UnresolvedStructOrWord { identifier: None })) =>
+		{
+			None
+		}
 		Some(Ok(x)) => Some(Ok(x)),
 		Some(Err(_poison)) => Some(Err(Poison::Poisoned)),
 		None => None,
